@@ -665,13 +665,19 @@ def unit_store(U):
     for _ in range(6000 if U.thorough else 250):
         work.append((rand_rows(U.rng, U.rng.randint(4, 9), U.rng.choice((8, 14)), U.rng.choice((1, 3)), strands=("+", "-"),
                                frames=(".",)), "random"))
+    # names that differ only in letter case are different names: runs are per seqid and featuretype exactly as stored
+    for j in range(400 if U.thorough else 60):
+        sq, ft = ((("Chr1", "chr1"), ("exon",)), (("c1",), ("CDS", "cds")), (("chrUn_A", "chrUn_a"), ("CDS", "cds")))[j % 3]
+        work.append((rand_rows(U.rng, U.rng.randint(4, 8), U.rng.choice((8, 14)), U.rng.choice((1, 3)), seqids=sq, strands=("+",), fts=ft, frames=(".",)), "case twins"))
     modes = ("default", "default_explicit", "group_exon", "any_type")
-    for k, (rows, _) in enumerate(work):
+    for k, (rows, label) in enumerate(work):
         # ids are assigned in a shuffled order so that rowid / id order is unrelated to the coordinates
         rows = list(rows)
         U.rng.shuffle(rows)
         for exclude in (False, True):
             mode = modes[(k + exclude) % 4] if k % 3 else "default"
+            if label == "case twins":
+                mode = ("default", "default_explicit")[k % 2]
             merge_all_case(rows, with_gene=bool((k // 2) % 2), mode=mode, exclude=exclude, fails=fails, nfail=nfail)
             cases += 1
             if k % 10 == 0:
@@ -688,7 +694,7 @@ def unit_store(U):
         "database after merge_all == database before + one stored feature (fresh id, union extent) per multi-member run of the "
         "interval union, with (merged, member, 1) added and Parent set for every member, or with the members and their relations "
         "deleted when exclude_components; nothing else changes; returned list == those runs",
-        "%d feature sets (all start-ordered sequences of small scopes in one group, sampled 2x2x2 mixtures, random 4-9 intervals), "
+        "%d feature sets (all start-ordered sequences of small scopes in one group, sampled 2x2x2 mixtures, random 4-9 intervals, random 4-8 intervals over seqids / featuretypes that differ only in letter case), "
         "ids in shuffled order, with/without a gene parent holding level-1 relations, exclude_components on/off, default arguments / "
         "explicit defaults / featuretypes_groups=('exon',) / exon+CDS group without feature_type criterion" % (len(work),),
         cases, fails, distinct=cases, sample={"failures_total": nfail[0]})
